@@ -244,6 +244,13 @@ class VFSZip(VFS_Real):
     def unlink(self, selector: str):
         raise NotImplementedError("VFSZip cannot unlink files.")
 
+    def _inarchive(self, selector: str) -> bool:
+        # Selectors that do not lie below the archive (an absolute selector in
+        # a gophermap member, say) belong to the underlying file system.
+        return selector == self.zipfilename or selector.startswith(
+            self.zipfilename + "/"
+        )
+
     def _getfspathfinal(self, selector: str) -> str:
         # Strip off the filename part.
         selector = selector[len(self.zipfilename) :]
@@ -260,6 +267,8 @@ class VFSZip(VFS_Real):
         return self._getfspathfinal(selector)
 
     def stat(self, selector: str):
+        if not self._inarchive(selector):
+            return self.chain.stat(selector)
         fspath = self.getfspath(selector)
         try:
             inode_data = self._getcacheentry(fspath)
@@ -301,6 +310,8 @@ class VFSZip(VFS_Real):
         )  # change time
 
     def isdir(self, selector: str) -> bool:
+        if not self._inarchive(selector):
+            return self.chain.isdir(selector)
         fspath = self.getfspath(selector)
         try:
             item = self._getcacheentry(fspath)
@@ -310,6 +321,8 @@ class VFSZip(VFS_Real):
         return type(item) == dict
 
     def isfile(self, selector: str) -> bool:
+        if not self._inarchive(selector):
+            return self.chain.isfile(selector)
         fspath = self.getfspath(selector)
         try:
             item = self._getcacheentry(fspath)
@@ -319,6 +332,8 @@ class VFSZip(VFS_Real):
         return type(item) != dict
 
     def exists(self, selector: str) -> bool:
+        if not self._inarchive(selector):
+            return self.chain.exists(selector)
         fspath = self.getfspath(selector)
         return self._isentryincache(fspath)
 
@@ -327,6 +342,9 @@ class VFSZip(VFS_Real):
     ) -> typing.IO:
 
         assert mode in ("r", "rb")
+
+        if not self._inarchive(selector):
+            return self.chain.open(selector, mode, errors)
 
         fspath = self.getfspath(selector)
         try:
@@ -348,6 +366,8 @@ class VFSZip(VFS_Real):
         return fp
 
     def listdir(self, selector: str) -> typing.List[str]:
+        if not self._inarchive(selector):
+            return self.chain.listdir(selector)
         fspath = self.getfspath(selector)
         try:
             retobj = self._getcacheentry(fspath)
